@@ -176,7 +176,6 @@ func resPair(bd *lib.Binder, cls string, b []byte, f uint8) string {
 	return lib.CoqRes(cls, fmt.Sprintf("(%s, %d)", bd.Bytes(b), f))
 }
 
-
 func hostile(s []byte) bool {
 	// skip inputs on which the library would allocate gigabytes (resource exhaustion is outside the model)
 	p := payloadOf(s)
@@ -269,6 +268,13 @@ func main() {
 			os.Exit(2)
 		}
 		switch c.Kind {
+		case "big-serialize":
+			addBigSer(run, c.Pos, c.Comp, c.Level, c.Cks)
+		case "big-corrupt":
+			var n int
+			fmt.Sscan(string(c.Data), &n)
+			_, sbytes := goSerialize(bigData(n), c.Comp, c.Level, c.Cks)
+			addBigCorrupt(run, sbytes, n, c.Comp, c.Level, c.Cks, c.Pos, c.B)
 		case "serialize":
 			addSer(c.Data, c.Comp, c.Level, c.Cks)
 		case "corrupt":
@@ -346,6 +352,53 @@ func main() {
 			}
 		}
 	}
+	// boundary: payloads whose LZ4 / snappy stream is exactly as long as (or one off) the payload
+	found := 0
+	for try := 0; try < 4000 && found < 8; try++ {
+		d := append(rng.Bytes(1+rng.Intn(3)), bytes.Repeat([]byte{byte(rng.Intn(256))}, 3+rng.Intn(12))...)
+		d = append(d, rng.Bytes(4+rng.Intn(40))...)
+		for _, comp := range []uint8{4, 1} {
+			_, c := libCompress(d, comp, -1)
+			if diff := len(c) - len(d); diff >= -1 && diff <= 1 {
+				run.Count(fmt.Sprintf("boundary:stream-len-minus-payload-len=%d/format%d", diff, comp))
+				addSer(d, comp, -1, uint8(found%2))
+				found++
+			}
+		}
+	}
+
+	// large payloads (32 KiB .. MiB): compared by the driver, judged by the property oracle only
+	bigSizes := []int{32768, 40000, 70001}
+	if o.Thorough() {
+		bigSizes = append(bigSizes, 1<<20, 3<<20+17)
+	}
+	for _, n := range bigSizes {
+		for _, comp := range formats {
+			for _, cks := range []uint8{0, 1} {
+				level := int8(-1)
+				if comp == 2 {
+					level = int8(rng.Pick(-1, 1, 9))
+				}
+				scls, sbytes := addBigSer(run, n, comp, level, cks)
+				if scls != "ok" || (cks == 0 && comp != 2) {
+					continue
+				}
+				// corruptions: single-bit flips at sampled positions of the stored value
+				nc := 60
+				if o.Thorough() {
+					nc = 600
+				}
+				for ci := 0; ci < nc; ci++ {
+					pos := 1 + rng.Intn(len(sbytes)-1)
+					if ci%10 == 0 {
+						pos = len(sbytes) - 1 - rng.Intn(8) // trailer
+					}
+					addBigCorrupt(run, sbytes, n, comp, level, cks, pos, byte(1)<<uint(rng.Intn(8)))
+				}
+			}
+		}
+	}
+
 	// illegal parameters
 	addSer([]byte{1, 2, 3}, 3, -1, 0)
 	addSer([]byte{1, 2, 3}, 0, -1, 2)
@@ -390,6 +443,48 @@ func main() {
 	run.Finish("c15case",
 		"payload classes of the quantifier x {none,snappy,gzip,lz4} x {none,CRC32}; every single-bit flip, one random byte substitution and every truncation of small envelopes; random byte strings; a case is non-trivial and distinct by (kind, format, checksum, size class, content hash)",
 		tail)
+}
+
+// bigData: a payload determined by its size alone (so that replay files need not carry it):
+// random bytes for even sizes, text-like for odd sizes.
+func bigData(n int) []byte {
+	r := lib.NewRand(uint64(n)*7919 + 13)
+	if n%2 == 0 {
+		return r.Bytes(n)
+	}
+	data := make([]byte, n)
+	const txt = "the quick brown fox jumps over the lazy dog\n"
+	for j := range data {
+		data[j] = txt[(j*7+r.Intn(3))%len(txt)]
+	}
+	return data
+}
+
+func addBigSer(run *lib.Run, n int, comp uint8, level int8, cks uint8) (string, []byte) {
+	data := bigData(n)
+	scls, sbytes := goSerialize(data, comp, level, cks)
+	dc, db, _ := goDeserialize(sbytes, true)
+	rc, rb, _ := goDeserialize(sbytes, false)
+	rawOK := rc == "ok" && bytes.Equal(rb, payloadOf(sbytes))
+	term := fmt.Sprintf("CBigSer %d %d %d %s %s %s", n, comp, cks, lib.CoqBool(scls == "ok"),
+		lib.CoqBool(dc == "ok" && bytes.Equal(db, data)), lib.CoqBool(rawOK))
+	run.Count("size:big")
+	run.Add("big-serialize", term, jcase{Kind: "big-serialize", Comp: comp, Level: level, Cks: cks, Pos: n}, fmt.Sprintf("big/%d/%d/%d", n, comp, cks))
+	return scls, sbytes
+}
+
+func addBigCorrupt(run *lib.Run, sbytes []byte, n int, comp uint8, level int8, cks uint8, pos int, mask byte) {
+	mut := append([]byte{}, sbytes...)
+	mut[pos] ^= mask
+	libcls := "ok"
+	if comp != 0 {
+		libcls, _ = libDecompress(comp, payloadOf(mut))
+	}
+	gc, _, _ := goDeserialize(mut, true)
+	cl := map[string]string{"ok": "OOk", "err": "OErr", "panic": "OPanic"}[gc]
+	term := fmt.Sprintf("CBigCorrupt %d %d %d %d %s %s", n, comp, cks, pos, lib.CoqBool(libcls != "ok"), cl)
+	run.Count("big-corrupt-result:" + gc)
+	run.Add("big-corrupt", term, jcase{Kind: "big-corrupt", Comp: comp, Level: level, Cks: cks, Pos: pos, B: mask, Data: []byte(fmt.Sprint(n))}, fmt.Sprintf("bigc/%d/%d/%d/%d/%d", n, comp, cks, pos, mask))
 }
 
 func crcKey(b []byte) uint32 {
